@@ -29,7 +29,7 @@ VARIANTS = {
     "o2": ("gcc", ["-O2", "-g0", "-DNDEBUG", "-ffunction-sections", "-fdata-sections"], []),
     "o2-nopool": ("gcc", ["-O2", "-g0", "-DNDEBUG", "-ffunction-sections", "-fdata-sections",
                           "-DDISABLE_OBJECT_POOL"], []),
-    "o0-su": ("gcc", ["-O0", "-g0", "-fstack-usage"], []),
+    "o0-su": ("gcc", ["-O0", "-g0", "-fstack-usage", "-ffunction-sections", "-fdata-sections"], []),
     "tsan-nopool": ("gcc", ["-O1", "-g", "-DDISABLE_OBJECT_POOL", "-fsanitize=thread"],
                     ["-fsanitize=thread"]),
     "plain": ("gcc", ["-O1", "-g"], []),
